@@ -25,6 +25,10 @@ def run_one(mod, prop, tier, seed, index):
     from mon.case import Ctx
     ctx = Ctx(prop, tier, seed, index)
     rs = case_rng(seed, prop, index)
+    from mon import gen
+    # long histories: in the thorough tier every tenth case multiplies the length of its mixed-call section (60-120 calls)
+    gen.LEN_SCALE = (6 if (index // 70) % 2 else 3) if (tier == "thorough" and (index // 7) % 10 == 9) else 1
+    ctx.count("long_history_cases", 1 if gen.LEN_SCALE > 1 else 0)
     mod.run_case(rs, ctx)
     return ctx
 
